@@ -127,9 +127,10 @@ def readAnnot (x : List Char × List Char) : Option Annot :=
 /-! ## reachability in the use graph -/
 
 open RsslVerif.Model.MetaReach in
-/-- `Reach direct f s`: symbol `s` is mentioned by `f` or by a function `f` can reach through calls -/
-inductive Reach (direct : Nat → List Sym) : Nat → Sym → Prop
-  | base {f s} : s ∈ direct f → Reach direct f s
-  | step {f h s} : Reach direct f (.fn h) → Reach direct h s → Reach direct f s
+/-- `Reach direct k s`: symbol `s` is mentioned by `k` or by a symbol `k` can reach (functions through
+    calls, default arguments and bodies; globals through their initialisers) -/
+inductive Reach (direct : Sym → List Sym) : Sym → Sym → Prop
+  | base {k s} : s ∈ direct k → Reach direct k s
+  | step {k m s} : Reach direct k m → Reach direct m s → Reach direct k s
 
 end RsslVerif.Spec.Meta
